@@ -333,6 +333,10 @@ func TestReplay(t *testing.T) {
 	if err != nil {
 		t.Fatal(err)
 	}
+	if cf.Sub == "proc" {
+		replayProc(t, cf.Case)
+		return
+	}
 	if cf.Sub != "sched" {
 		t.Skip("not a sched case")
 	}
